@@ -1,9 +1,11 @@
+pub mod c01;
 pub mod c20;
 
 use crate::engine::PropFn;
 
 pub fn table() -> Vec<(&'static str, PropFn)> {
     vec![
+        ("C01", c01::run as PropFn),
         ("C20", c20::run as PropFn),
     ]
 }
